@@ -193,7 +193,11 @@ impl SDJWTHolder {
                     {
                         next
                     } else {
-                        sd_map[key_to_disclose.as_str()]
+                        sd_map
+                            .get(key_to_disclose.as_str())
+                            .ok_or(Error::InvalidState(
+                                "Requested claim doesn't exist".to_string(),
+                            ))?
                             .0
                             .as_object()
                             .ok_or(Error::ConversionError("json object".to_string()))?
@@ -231,13 +235,35 @@ impl SDJWTHolder {
             match (claim_to_disclose, sd_jwt_claims) {
                 (Value::Bool(true), Value::Object(sd_jwt_claims)) => {
                     if let Some(Value::String(digest)) = sd_jwt_claims.get(SD_LIST_PREFIX) {
-                        hash_to_disclosure
-                            .push(self.sd_jwt_engine.hash_to_disclosure[digest].to_owned());
+                        let disclosure = self
+                            .sd_jwt_engine
+                            .hash_to_disclosure
+                            .get(digest)
+                            .ok_or(Error::InvalidState(
+                                "Requested claim doesn't exist".to_string(),
+                            ))?;
+                        hash_to_disclosure.push(disclosure.to_owned());
                     }
                 }
                 (claim_to_disclose, Value::Object(sd_jwt_claims)) => {
                     if let Some(Value::String(digest)) = sd_jwt_claims.get(SD_LIST_PREFIX) {
-                        let disclosure = self.sd_jwt_engine.hash_to_decoded_disclosure[digest]
+                        let disclosure = match self
+                            .sd_jwt_engine
+                            .hash_to_decoded_disclosure
+                            .get(digest)
+                        {
+                            Some(disclosure) => disclosure,
+                            // the disclosure of this element is not held (decoy or not received)
+                            None => match claim_to_disclose {
+                                Value::Array(_) | Value::Object(_) => {
+                                    return Err(Error::InvalidState(
+                                        "Requested claim doesn't exist".to_string(),
+                                    ))
+                                }
+                                _ => continue,
+                            },
+                        };
+                        let disclosure = disclosure
                             .as_array()
                             .ok_or(Error::ConversionError("json array".to_string()))?;
                         match (claim_to_disclose, disclosure.get(1)) {
